@@ -34,19 +34,44 @@ func New[T any](ctx context.Context, cap int) (<-chan T, chan<- T) {
 
 	go func() {
 		defer close(eg)
-		defer close(in)
+
+		// flush delivers the backlog to the receiver
+		flush := func() {
+			for mq.head != nil {
+				eg <- head(mq)
+				deq(mq)
+			}
+		}
 
 		for {
 			select {
 			case <-ctx.Done():
-				for mq.head != nil {
-					eg <- head(mq)
-					deq(mq)
+				// collect the values already accepted by the send side,
+				// unless the sender has closed it the send side is closed here.
+				for {
+					select {
+					case x, ok := <-in:
+						if !ok {
+							flush()
+							return
+						}
+						enq(&x, mq)
+						continue
+					default:
+					}
+					break
 				}
+				close(in)
+				for x := range in {
+					enq(&x, mq)
+				}
+				flush()
 				return
 
 			case x, ok := <-in:
 				if !ok {
+					// the sender has closed the channel, it is the end of stream
+					flush()
 					return
 				}
 				enq(&x, mq)
